@@ -122,6 +122,9 @@ func (e *Engine) execCall(st *State, fr *Frame, in *ssa.Call, b, prev *ssa.Basic
 	return nil, false
 }
 
+// forkVal lets an intrinsic return several outcomes (path split).
+type forkVal struct{ outs []callOutcome }
+
 type callOutcome struct {
 	st     *State
 	result Value
@@ -166,7 +169,11 @@ func (e *Engine) callFunction(st *State, fr *Frame, fn *ssa.Function, args []Val
 		return []callOutcome{{st: st}}
 	}
 	if h, ok := intrinsics[full]; ok {
-		return []callOutcome{{st: st, result: h(e, st, fr, args, in)}}
+		r := h(e, st, fr, args, in)
+		if fv, ok := r.(*forkVal); ok {
+			return fv.outs
+		}
+		return []callOutcome{{st: st, result: r}}
 	}
 	if e.concrete && fn.Parent() != nil && e.touchesEmbeddedTable(fn) {
 		// table initialisers are not ground-evaluated here: their result is a lazily symbolic region
@@ -293,7 +300,7 @@ func (e *Engine) applyContract(st *State, fr *Frame, fn *ssa.Function, c *Contra
 		for _, p := range c.Panics {
 			pcs = append(pcs, env.boolTerm(p.Expr))
 		}
-		pc := substitute(mkOr(pcs...), st.subst)
+		pc := st.sub(mkOr(pcs...))
 		if !(pc.IsConst() && pc.Val.Sign() == 0) && !st.hypKeys[mkNot(pc).Key()] {
 			if fr.ctx != nil && fr.ctx.propagatePanics {
 				ps := st.fork()
@@ -320,7 +327,7 @@ func (e *Engine) applyContract(st *State, fr *Frame, fn *ssa.Function, c *Contra
 		var next []*State
 		for _, s := range states {
 			env.st = s
-			ct := substitute(env.boolTerm(ce), s.subst)
+			ct := s.sub(env.boolTerm(ce))
 			env.st = st
 			if ct.IsConst() || s.hypKeys[ct.Key()] || s.hypKeys[mkNot(ct).Key()] {
 				next = append(next, s)
@@ -526,7 +533,7 @@ func (e *Engine) havocCell(st *State, cr cellRef, tag string) {
 		// slice header: new unknown slice over a fresh dynamic region
 		r := e.newRegion(name, u.Elem(), true)
 		r.dyn = true
-		r.created = st.epoch
+		r.created = st.epoch + 1
 		n := mkIntVarR(name+".len", big0, big.NewInt(1<<40))
 		r.dynLen = n
 		st.mem.cells[pathKey(r.id, nil)] = &Term{Op: "var", Sort: SArr, Name: name + ".arr", Lo: big0, Hi: maxU8}
@@ -568,7 +575,7 @@ func (e *Engine) symbolicResult(st *State, t types.Type, name string, fresh bool
 	case *types.Pointer:
 		if fresh {
 			r := e.newRegion(name, u.Elem(), true)
-			r.created = st.epoch
+			r.created = st.epoch + 1
 			e.symbolicRegion(st, r, name)
 			return &PtrVal{reg: r, typ: t}
 		}
@@ -577,7 +584,7 @@ func (e *Engine) symbolicResult(st *State, t types.Type, name string, fresh bool
 		if fresh {
 			r := e.newRegion(name, u.Elem(), true)
 			r.dyn = true
-			r.created = st.epoch
+			r.created = st.epoch + 1
 			n := mkIntVarR(name+".len", big0, big.NewInt(1<<40))
 			r.dynLen = n
 			lo, hi := intRange(u.Elem())
@@ -610,6 +617,21 @@ func (e *Engine) symbolicRegion(st *State, r *Region, name string) {
 			} else {
 				st.mem.cells[pathKey(r.id, path)] = e.symbolicScalar(nm, lt)
 			}
+		case *types.Slice:
+			cr := cellRef{r, path, lt}
+			e.havocCell(st, cr, name)
+		case *types.Pointer:
+			// fresh objects own fresh sub-objects (bounded depth); contracts may re-point the field
+			if strings.Count(name, "->") < 3 {
+				if _, isStruct := underlying(u.Elem()).(*types.Struct); isStruct {
+					sub := e.newRegion(nm+"->", u.Elem(), true)
+					sub.created = st.epoch + 1
+					e.symbolicRegion(st, sub, nm+"->")
+					st.mem.cells[pathKey(r.id, path)] = &PtrVal{reg: sub, typ: lt}
+					return
+				}
+			}
+			st.mem.cells[pathKey(r.id, path)] = e.zeroValue(lt)
 		default:
 			st.mem.cells[pathKey(r.id, path)] = e.zeroValue(lt)
 		}
@@ -680,7 +702,7 @@ func (e *Engine) assumeEnsures(st *State, env *SpecEnv, x ast.Expr, results []Va
 						rt = mkToRing(lt.Sort, rt)
 					}
 				}
-				rt = substitute(rt, st.subst)
+				rt = st.sub(rt)
 				if definable(lt) && !occurs(lt, rt) {
 					st.addSubst(lt, rt)
 					return
@@ -706,7 +728,7 @@ func (e *Engine) assumeEnsures(st *State, env *SpecEnv, x ast.Expr, results []Va
 		if id, ok := n.Fun.(*ast.Ident); ok {
 			switch id.Name {
 			case "implies":
-				g := substitute(env.boolTerm(n.Args[0]), st.subst)
+				g := st.sub(env.boolTerm(n.Args[0]))
 				if knownTrue(st, g) {
 					e.assumeEnsures(st, env, n.Args[1], results, names)
 					return
@@ -717,7 +739,7 @@ func (e *Engine) assumeEnsures(st *State, env *SpecEnv, x ast.Expr, results []Va
 			case "iff":
 				l := env.boolTerm(n.Args[0])
 				if l.Op == "var" && definable(l) {
-					r := substitute(env.boolTerm(n.Args[1]), st.subst)
+					r := st.sub(env.boolTerm(n.Args[1]))
 					if knownTrue(st, r) {
 						r = tTrue
 					} else if knownFalse(st, r) {
@@ -816,6 +838,8 @@ func (e *Engine) typeSpecOf(t types.Type) *TypeSpec {
 }
 
 // invariantsAt instantiates the invariants of every typed sub-object at/under (reg,path).
+var depth int
+
 func (e *Engine) invariantsAt(st *State, reg *Region, path []int, t types.Type, label string) []invInst {
 	var out []invInst
 	root := path
@@ -836,6 +860,21 @@ func (e *Engine) invariantsAt(st *State, reg *Region, path []int, t types.Type, 
 			if u.Len() <= 64 {
 				for i := int64(0); i < u.Len(); i++ {
 					rec(extend(path, int(i)), u.Elem(), fmt.Sprintf("%s[%d]", label, i))
+				}
+			}
+		case *types.Pointer:
+			// follow non-nil pointer fields of key objects (bounded depth)
+			if depth < 3 && len(path) > 0 {
+				if cv, ok := st.mem.cells[pathKey(reg.id, path)]; ok {
+					if p, ok := cv.(*PtrVal); ok && !p.null && !p.reg.dyn && p.sym == nil {
+						depth++
+						sub := e.invariantsAt(st, p.reg, p.path, subType(p.reg.typ, p.path), label)
+						depth--
+						for _, si := range sub {
+							si.top = false
+							out = append(out, si)
+						}
+					}
 				}
 			}
 		}
